@@ -458,6 +458,17 @@ func createStrFunctions() { //nolint:funlen // we do have quite a few, yes.
 		}
 		inp := args[1].(object.String).Value
 		repl := args[2].(object.String).Value
+		// Every match is replaced by repl, each $ of which can expand to (part of) the match: check the size first,
+		// like the operators that build strings do.
+		size := len(inp)
+		refs := strings.Count(repl, "$")
+		for _, m := range re.FindAllStringIndex(inp, -1) {
+			size += len(repl) + refs*(m[1]-m[0])
+			if size < 0 || size > math.MaxInt32*object.ObjectSize {
+				break // (already more than any budget.)
+			}
+		}
+		object.MustBeOk(size / object.ObjectSize)
 		newStr := re.ReplaceAllString(inp, repl)
 		return object.String{Value: newStr}
 	}
